@@ -35,6 +35,11 @@ type auditResult struct {
 	Survivors  []string       `json:"survivor_samples"`
 	Seconds    float64        `json:"seconds"`
 	Note       string         `json:"note"`
+	// behaviour-preserving rewrites of the same functions: every one that the check reports is a false alarm
+	EquivGenerated int      `json:"equivalent_variants_generated"`
+	EquivInvalid   int      `json:"equivalent_variants_not_type_checking"`
+	EquivFlagged   int      `json:"equivalent_variants_flagged"`
+	EquivSamples   []string `json:"equivalent_variants_flagged_samples"`
 }
 
 var posRE = regexp.MustCompile(`^(.+\.go):(\d+)$`)
@@ -114,6 +119,28 @@ func runAudit(id string, c *eng.Ctx, seed int) *auditResult {
 		all = all[:capN]
 	}
 	res.Generated = len(all)
+	// the counterpart: rewrites that do not change behaviour (operands swapped with the operator mirrored, a comparison written as
+	// the negation of its complement, if/else exchanged under the negated condition) in the property-specific functions
+	{
+		var eq []mutate.Mutant
+		for _, f := range files {
+			src := prio[f]
+			if len(src) == 0 {
+				continue
+			}
+			if ms, err := mutate.Equivalents(f, src); err == nil {
+				eq = append(eq, ms...)
+			}
+		}
+		const capEq = 320
+		if len(eq) > capEq {
+			r := rand.New(rand.NewSource(int64(seed) + 7))
+			r.Shuffle(len(eq), func(i, j int) { eq[i], eq[j] = eq[j], eq[i] })
+			eq = eq[:capEq]
+		}
+		res.EquivGenerated = len(eq)
+		all = append(all, eq...)
+	}
 	tmp, err := os.MkdirTemp("", "lbcheck-audit-")
 	if err != nil {
 		res.Note += " (audit skipped: " + err.Error() + ")"
@@ -176,6 +203,18 @@ func runAudit(id string, c *eng.Ctx, seed int) *auditResult {
 	rel := func(p string) string { return strings.TrimPrefix(p, *flagRepo+"/") }
 	for _, o := range outs {
 		desc := fmt.Sprintf("%s:%d %s %s: %s", rel(o.m.File), o.m.Line, o.m.Func, o.m.Op, o.m.Desc)
+		if strings.HasPrefix(o.m.Op, "EQV-") {
+			switch o.status {
+			case "invalid":
+				res.EquivInvalid++
+			case "killed":
+				res.EquivFlagged++
+				if len(res.EquivSamples) < 40 {
+					res.EquivSamples = append(res.EquivSamples, desc+" → "+o.rule)
+				}
+			}
+			continue
+		}
 		switch o.status {
 		case "invalid":
 			res.Invalid++
